@@ -8,6 +8,7 @@ import (
 	"log/slog"
 	"net/http"
 	"os"
+	"path/filepath"
 	"strings"
 	"sync"
 	"time"
@@ -39,6 +40,7 @@ type Router struct {
 	statePath   string
 	services    *ServiceMap
 	serviceLock sync.RWMutex
+	stateLock   sync.Mutex
 }
 
 type ServiceDescription struct {
@@ -325,6 +327,10 @@ func (r *Router) findOrCreateService(name string, options ServiceOptions, target
 }
 
 func (r *Router) saveStateSnapshot() error {
+	// Serialize snapshots, so the last one written reflects the latest state.
+	r.stateLock.Lock()
+	defer r.stateLock.Unlock()
+
 	services := []*Service{}
 	r.withReadLock(func() error {
 		for _, service := range r.services.All() {
@@ -334,18 +340,30 @@ func (r *Router) saveStateSnapshot() error {
 	})
 	verifPoint("snap.listed", r.statePath)
 
-	f, err := os.Create(r.statePath)
+	// Write to a temporary file and rename it into place, so that the state
+	// file is always a complete snapshot, even if we are killed part way.
+	f, err := os.CreateTemp(filepath.Dir(r.statePath), filepath.Base(r.statePath)+".tmp-*")
 	if err != nil {
 		return err
 	}
+	defer os.Remove(f.Name())
 	verifPoint("snap.created", r.statePath)
 
 	err = json.NewEncoder(f).Encode(services)
+	if closeErr := f.Close(); err == nil {
+		err = closeErr
+	}
 	if err != nil {
 		slog.Error("Unable to save state", "error", err, "path", r.statePath)
 		return err
 	}
 	verifPoint("snap.written", r.statePath)
+
+	err = os.Rename(f.Name(), r.statePath)
+	if err != nil {
+		slog.Error("Unable to save state", "error", err, "path", r.statePath)
+		return err
+	}
 
 	slog.Debug("Saved state", "path", r.statePath)
 	return nil
